@@ -102,3 +102,33 @@ def self_test(body, choices_list, same=lambda a, b: a == b):
         b = run_once(body, ch)
         if a.trace != b.trace or not same(a.obs, b.obs):
             raise HarnessError('non-deterministic replay of %r:\n %r\n %r' % (ch, (a.trace, a.obs), (b.trace, b.obs)))
+
+
+def explore_stateful(body, on_exec=None, max_exec=None, prefix=()):
+    """Stateless re-execution with state matching: the label of every choice point must end with a
+    hashable STATE KEY that determines the future of the run; an alternative is explored only if the
+    pair (state, alternative) has not been taken before.  No deviation bound.
+
+    Returns (executions, distinct (state, choice) pairs, leftover stack)."""
+    seen = set()
+    stack = [list(prefix)]
+    n = 0
+    while stack:
+        p = stack.pop()
+        x = run_once(body, p)
+        n += 1
+        if on_exec:
+            on_exec(x)
+        for i in range(len(x.trace)):
+            c, k, _cost, label = x.trace[i]
+            st = label[-1][-1] if isinstance(label[-1], tuple) else label[-1]
+            seen.add((st, c))
+            if i < len(p):
+                continue
+            for alt in range(1, k):
+                if (st, alt) not in seen:
+                    seen.add((st, alt))
+                    stack.append(x.choices[:i] + [alt])
+        if max_exec and n >= max_exec and stack:
+            return n, len(seen), stack
+    return n, len(seen), []
